@@ -57,8 +57,7 @@ def Inv(h, hole=None, X=None, whole=None):
         'C01/F2-parent-lists-its-child': ForAll([c_], Implies(f2, mem(h.ch(h.par[c_]), c_)), patterns=[h.par[c_]]),
         'C01/F3-no-child-listed-twice': ForAll([t_], Implies(t_ != null, nodup(h.ch(t_))), patterns=[h.chl[t_]]),
         'C01/F4-no-task-is-its-own-ancestor': Acyc(h.par),
-        'O1-list-objects-distinct': And(ForAll([t_, u_], Implies(And(t_ != null, u_ != null, t_ != u_), h.chl[t_] != h.chl[u_]), patterns=[MultiPattern(h.chl[t_], h.chl[u_])]),
-                                        ForAll([t_, u_], Implies(And(t_ != null, u_ != null), And(h.chl[t_] != h.pre[u_], h.chl[t_] != h.suc[u_])), patterns=[MultiPattern(h.chl[t_], h.pre[u_]), MultiPattern(h.chl[t_], h.suc[u_])]),
+        'O1-list-objects-distinct': And(inj(h.chl), disj(h.chl, h.pre), disj(h.chl, h.suc),          # (see graph_theory.INJ_AX: different tasks, different list objects; children lists are no dependency lists)
                                         ForAll([t_], Implies(t_ != null, h.chl[t_] != LR.null), patterns=[h.chl[t_]])),
         'O2-link-list-objects-exist': ForAll([t_], Implies(t_ != null, And(h.pre[t_] != LR.null, h.suc[t_] != LR.null)), patterns=[h.pre[t_], h.suc[t_]]),
         'N-null-has-no-parent': h.par[null] == null,
@@ -66,8 +65,7 @@ def Inv(h, hole=None, X=None, whole=None):
         'C11/W1r-owner-only-if-reachable-from-that-WBS-root': ForAll([c_], Implies(And(c_ != null, h.own[c_] != W.null, *([] if X is None else [Not(X(c_))])), insub(h.par, h.root[h.own[c_]], c_)), patterns=[h.own[c_]]),
         'C11/WR-hidden-roots': ForAll([w_], Implies(wok, And(h.root[w_] != null, h.own[h.root[w_]] == w_, h.par[h.root[w_]] == null, h.tid[h.root[w_]] == EMPTY)), patterns=[h.root[w_]]),
         'C01/X1-no-link-along-the-hierarchy': ForAll([a_, b_], Implies(And(b_ != null, mem(h.P(b_), a_)), And(Not(Desc(h.par, a_, b_)), Not(Desc(h.par, b_, a_)), a_ != b_)), patterns=[mem(h.P(b_), a_)]),
-        'C05/U1-ids-unique-within-every-tree': ForAll([a_, b_], Implies(And(a_ != null, b_ != null, a_ != b_, rootof(h.par, a_) == rootof(h.par, b_)), h.tid[a_] != h.tid[b_]),
-                                                      patterns=[MultiPattern(rootof(h.par, a_), rootof(h.par, b_))]),
+        'C05/U1-ids-unique-within-every-tree': uniq(h.par, h.tid),          # no two different tasks of one tree with the same id (graph_theory.UNIQ_AX)
         'C01/M1-links-symmetric': ForAll([a_, b_], Implies(And(a_ != null, b_ != null), mem(h.P(b_), a_) == mem(h.S(a_), b_)), patterns=[mem(h.P(b_), a_), mem(h.S(a_), b_)]),
         'NN-no-None-in-links': ForAll([t_, a_], Implies(And(t_ != null, Or(mem(h.P(t_), a_), mem(h.S(t_), a_))), a_ != null), patterns=[mem(h.P(t_), a_), mem(h.S(t_), a_)]),
         'DR-reserved-id-marks-hidden-roots-only': ForAll([c_], Implies(And(c_ != null, h.tid[c_] == EMPTY), And(h.own[c_] != W.null, h.root[h.own[c_]] == c_)), patterns=[h.tid[c_]]),
@@ -408,9 +406,7 @@ def LInv_side(side, h, E):
         'C01/M1-links-symmetric': ForAll([a_, b_], Implies(And(a_ != null, b_ != null), mem(M(h, b_), a_) == mem(O(h, a_), b_)), patterns=[mem(M(h, b_), a_), mem(O(h, a_), b_)]),
         'ND-no-link-listed-twice': ForAll([t_], Implies(t_ != null, And(nodup(h.P(t_)), nodup(h.S(t_)))), patterns=[h.pre[t_]]),
         'NN-no-None-in-links': ForAll([t_, a_], Implies(And(t_ != null, Or(mem(h.P(t_), a_), mem(h.S(t_), a_))), a_ != null), patterns=[mem(h.P(t_), a_), mem(h.S(t_), a_)]),
-        'O1-list-objects-distinct': And(ForAll([t_, u_], Implies(And(t_ != null, u_ != null), And(h.pre[t_] != h.suc[u_], Implies(t_ != u_, And(h.pre[t_] != h.pre[u_], h.suc[t_] != h.suc[u_])))),
-                                               patterns=[MultiPattern(h.pre[t_], h.suc[u_]), MultiPattern(h.pre[t_], h.pre[u_]), MultiPattern(h.suc[t_], h.suc[u_])]),
-                                        ForAll([t_, u_], Implies(And(t_ != null, u_ != null), And(h.chl[t_] != h.pre[u_], h.chl[t_] != h.suc[u_])), patterns=[MultiPattern(h.chl[t_], h.pre[u_]), MultiPattern(h.chl[t_], h.suc[u_])]),
+        'O1-list-objects-distinct': And(inj(h.pre), inj(h.suc), disj(h.pre, h.suc), disj(h.chl, h.pre), disj(h.chl, h.suc),
                                         ForAll([t_], Implies(t_ != null, And(h.pre[t_] != LR.null, h.suc[t_] != LR.null)), patterns=[h.pre[t_]])),
         'SYNC-ghost-relation-mirrors-the-lists': ForAll([t_, a_], Implies(t_ != null, E[t_][a_] == mem(M(h, t_), a_)), patterns=[E[t_][a_]]),
         'C01/M2-dependency-relation-acyclic': AcycP(E),
